@@ -441,6 +441,96 @@ func execRegistry(c registryCase, _ core.Source) (res core.Result) {
 	return
 }
 
+// ---------------------------------------------------------------- first formatting of a collection type from several goroutines at once
+
+type firstFormatCase struct {
+	Type       int `json:"type"`
+	Goroutines int `json:"goroutines"`
+}
+
+var firstFormatTypes = []string{"List[int8]", "Set[int8]", "Stack[int8]", "Queue[int8]", "Array[int8]", "List[int16]", "Set[int16]", "Stack[int16]", "Queue[int16]", "Array[int16]",
+	"List[float32]", "Catalog[int16,int8]"}
+
+func buildFresh(typ int, id int) (fmt.Stringer, string) {
+	n := lib.Notation()
+	a, b, c := 1+id%5, 10+id%7, 20+id%3
+	body := fmt.Sprintf("[\n    %d\n    %d\n    %d\n]", a, b, c)
+	switch typ {
+	case 0:
+		return col.List[int8](n).MakeFromArray([]int8{int8(a), int8(b), int8(c)}).(fmt.Stringer), body + "(List)\n"
+	case 1:
+		return col.Set[int8](n).MakeFromArray([]int8{int8(c), int8(a), int8(b)}).(fmt.Stringer), body + "(Set)\n"
+	case 2:
+		return col.Stack[int8](n).MakeFromArray([]int8{int8(a), int8(b), int8(c)}).(fmt.Stringer), body + "(Stack)\n"
+	case 3:
+		return col.Queue[int8](n).MakeFromArray([]int8{int8(a), int8(b), int8(c)}).(fmt.Stringer), body + "(Queue)\n"
+	case 4:
+		return col.Array[int8](n).MakeFromArray([]int8{int8(a), int8(b), int8(c)}).(fmt.Stringer), body + "(Array)\n"
+	case 5:
+		return col.List[int16](n).MakeFromArray([]int16{int16(a), int16(b), int16(c)}).(fmt.Stringer), body + "(List)\n"
+	case 6:
+		return col.Set[int16](n).MakeFromArray([]int16{int16(c), int16(a), int16(b)}).(fmt.Stringer), body + "(Set)\n"
+	case 7:
+		return col.Stack[int16](n).MakeFromArray([]int16{int16(a), int16(b), int16(c)}).(fmt.Stringer), body + "(Stack)\n"
+	case 8:
+		return col.Queue[int16](n).MakeFromArray([]int16{int16(a), int16(b), int16(c)}).(fmt.Stringer), body + "(Queue)\n"
+	case 9:
+		return col.Array[int16](n).MakeFromArray([]int16{int16(a), int16(b), int16(c)}).(fmt.Stringer), body + "(Array)\n"
+	case 10:
+		return col.List[float32](n).MakeFromArray([]float32{float32(a) + 0.5, float32(b) + 0.5}).(fmt.Stringer), fmt.Sprintf("[\n    %d.5\n    %d.5\n](List)\n", a, b)
+	default:
+		cat := col.Catalog[int16, int8](n).Make()
+		cat.SetValue(int16(a), int8(b))
+		cat.SetValue(int16(b), int8(c))
+		return cat.(fmt.Stringer), fmt.Sprintf("[\n    %d: %d\n    %d: %d\n](Catalog)\n", a, b, b, c)
+	}
+}
+
+var formattedTypes [12]bool
+
+func execFirstFormat(c firstFormatCase, _ core.Source) (res core.Result) {
+	first := !formattedTypes[c.Type]
+	formattedTypes[c.Type] = true
+	objs := make([]fmt.Stringer, c.Goroutines)
+	want := make([]string, c.Goroutines)
+	for i := range objs {
+		objs[i], want[i] = buildFresh(c.Type, i)
+	}
+	got := make([]string, c.Goroutines)
+	panics := make([]any, c.Goroutines)
+	var wg sync.WaitGroup
+	start := make(chan struct{})
+	for i := range objs {
+		i := i
+		wg.Add(1)
+		go func() {
+			defer wg.Done()
+			defer func() {
+				if e := recover(); e != nil {
+					panics[i] = e
+				}
+			}()
+			<-start
+			got[i] = objs[i].String()
+		}()
+	}
+	close(start)
+	wg.Wait()
+	for i := range objs {
+		if panics[i] != nil {
+			res.Violation = core.Violate("C19/first-format/panicked", "formatting a %s for the first time from %d goroutines at once panicked: %s", firstFormatTypes[c.Type], c.Goroutines, lib.Short(panics[i]))
+			return
+		}
+		if got[i] != want[i] {
+			res.Violation = core.Violate("C19/first-format/result-differs", "formatting distinct %s instances from %d goroutines at once: goroutine %d printed %q, expected %q", firstFormatTypes[c.Type], c.Goroutines, i, got[i], want[i])
+			return
+		}
+	}
+	res.NonTrivial = first
+	res.Classes = append(res.Classes, "type-"+firstFormatTypes[c.Type])
+	return
+}
+
 func TestC19(t *testing.T) {
 	r := core.Begin(t, "C19")
 	defer r.End()
@@ -448,6 +538,12 @@ func TestC19(t *testing.T) {
 	core.Stress(r, core.Check[derivedCase]{Name: "derived-instances", Gen: func(s core.Source) derivedCase {
 		return derivedCase{Elem: core.Pick(s, []string{"int", "ints", "rec"}, "elem"), Seed: s.Choose(1000, "seed"), Rounds: 20 + s.Choose(60, "rounds")}
 	}, Exec: execDerived}, r.N(40, 600))
+	nextType := 0
+	core.Stress(r, core.Check[firstFormatCase]{Name: "first-format", Gen: func(s core.Source) firstFormatCase {
+		c := firstFormatCase{Type: nextType % len(firstFormatTypes), Goroutines: 4 + s.Choose(13, "goroutines")}
+		nextType++
+		return c
+	}, Exec: execFirstFormat}, len(firstFormatTypes))
 	core.Stress(r, core.Check[registryCase]{Name: "class-registries", Gen: func(s core.Source) registryCase {
 		return registryCase{Type: s.Choose(8, "type"), Goroutines: 2 + s.Choose(15, "goroutines")}
 	}, Exec: execRegistry}, r.N(8, 8))
